@@ -25,6 +25,7 @@ CONSTANTS Families,    \* which case families Init enumerates
           CoreLevels,  \* levels used by the "levels" family (subset of AllLevels)
           PairKeys,    \* keys used by the "pair" family
           PairLevels,  \* levels used by the "pair" family
+          AliasKeys,   \* first keys of the "alias" family
           StyleLevels, \* levels used by the single-key cases of the "style" family
           LevelKeys,   \* keys used by the "levels" family
           NameIds,     \* odd package / interface names (ids; concretised by checks/c19.py)
@@ -84,8 +85,13 @@ LevelsOf(sh) == Configurable(sh)
 \*   3 non-clean path         4 template with inner quotes, mixed case
 \*   5 looks like a bool / null / number / date / hex      6 unicode, NFC next to NFD
 \*   7 very long              8 the empty string            9 trailing slash, blank and tab
+\*  10 the SAME value at every level (so equal maps exist: the harness writes them with YAML anchors, aliases
+\*     and merge keys -- the values must arrive where the alias puts them)
+\*  11 bare scalars: strings that look like numbers / booleans / dates written unquoted in the v2 file, booleans
+\*     written yes / no / on / off (YAML 1.1 spellings the typed v2 fields accept)
 \* Booleans alternate polarity with the style, maps and lists follow the string styles.
 Styles == 1..9
+AllStyles == 0..11
 Q(s) == "\"" \o s \o "\""
 Idx(L) == CHOOSE j \in 1..7 : Order[j] = L
 \* log-level values stay valid zerolog level names (a loader may validate them), distinct per level;
@@ -93,8 +99,9 @@ Idx(L) == CHOOSE j \in 1..7 : Order[j] = L
 LogName(L, vi) ==
   LET lower == <<"debug", "info", "warn", "error", "trace", "fatal", "panic">>
       upper == <<"DEBUG", "INFO", "WARN", "ERROR", "TRACE", "FATAL", "PANIC">>
-  IN IF vi = 1 THEN lower[Idx(L)] ELSE IF vi = 2 THEN lower[((Idx(L) + 2) % 7) + 1] ELSE upper[((Idx(L) + vi) % 7) + 1]
+  IN IF vi = 10 THEN "warn" ELSE IF vi = 1 THEN lower[Idx(L)] ELSE IF vi = 2 THEN lower[((Idx(L) + 2) % 7) + 1] ELSE upper[((Idx(L) + vi) % 7) + 1]
 LooksLike == <<"true", "null", "0123", "1.50", "2001-01-01", "0x1F", "~">>
+BareLike == <<"true", "0123", "1.50", "2001-01-01", "0x1F", "no", "1e3">>     \* not null / ~: bare, those unset the key
 Long40 == "abcdefghijklmnopqrstuvwxyz0123456789ABCD"
 Long == Long40 \o "/" \o Long40 \o "/" \o Long40 \o "/" \o Long40 \o "/" \o Long40 \o "/" \o Long40 \o "/" \o Long40
 \* the text between the JSON quotes
@@ -109,15 +116,18 @@ StrBody(k, L, vi) ==
     [] vi = 7 -> Long \o "/" \o k \o "@" \o L
     [] vi = 8 -> ""
     [] vi = 9 -> k \o "@" \o L \o "/ \\t"
+    [] vi = 10 -> k \o "@any"
+    [] vi = 11 -> BareLike[((Idx(L) + (IF k \in Mapped THEN 0 ELSE 3)) % 7) + 1]
 Val(k, L, vi) ==
   IF vi = 0 THEN "null"
-  ELSE IF k \in BoolKeys THEN (IF (vi % 2 = 1) = Odd(L) THEN "true" ELSE "false")
+  ELSE IF k \in BoolKeys THEN (IF vi = 10 THEN "false" ELSE IF (vi % 2 = 1) = Odd(L) THEN "true" ELSE "false")
   ELSE IF k \in StrKeys THEN (IF k = "log-level" THEN Q(LogName(L, vi)) ELSE Q(StrBody(k, L, vi)))
   ELSE IF k \in ListKeys THEN
        (IF vi = 1 THEN "[" \o Q(k \o "@" \o L \o "/1") \o "," \o Q(k \o "@" \o L \o "/2") \o "]"
         ELSE IF vi = 2 THEN "[" \o Q("- " \o k \o ": " \o L \o " #c") \o "," \o Q("") \o "," \o Q("null") \o "]"
         ELSE "[" \o Q(StrBody(k \o "/1", L, vi)) \o "," \o Q(StrBody(k \o "/2", L, vi)) \o "]")
-  ELSE (IF vi % 2 = 1 THEN "{" \o Q("a@" \o L) \o ":{\"all\":true,\"l\":[1,\"two\"]}," \o Q("s") \o ":" \o Q(k \o "@" \o L) \o "}"
+  ELSE (IF vi = 10 THEN "{" \o Q("s") \o ":" \o Q(k \o "@any") \o "}"
+        ELSE IF vi % 2 = 1 THEN "{" \o Q("a@" \o L) \o ":{\"all\":true,\"l\":[1,\"two\"]}," \o Q("s") \o ":" \o Q(k \o "@" \o L) \o "}"
         ELSE "{" \o Q("k: " \o L \o " #") \o ":" \o Q(" v: {x} ") \o "}")
 
 (* --------------------------------------------------------------- layouts *)
@@ -131,16 +141,17 @@ Val(k, L, vi) ==
 \*   stale the output path already holds a longer file
 CwdS == <<"same", "child", "sibling">>
 CfgS == <<"rel", "abs", "discover">>
-OutS == <<"default", "rel", "samebase", "abs">>
-LayN(n) == [cwd |-> CwdS[((n - 1) \div 12) + 1], cfg |-> CfgS[(((n - 1) \div 4) % 3) + 1], out |-> OutS[((n - 1) % 4) + 1],
+OutS == <<"default", "rel", "samebase", "abs", "input">>      \* "input": --outfile names the v2 file itself
+LayN(n) == [cwd |-> CwdS[((n - 1) \div 15) + 1], cfg |-> CfgS[(((n - 1) \div 5) % 3) + 1], out |-> OutS[((n - 1) % 5) + 1],
             stale |-> FALSE]
 ValidLay(y) == /\ y.cfg = "discover" => y.cwd # "sibling"       \* the search only walks upwards
-               /\ y.out = "samebase" => y.cwd # "same"           \* otherwise the user asked to overwrite the input
-LaySeq == SelectSeq([n \in 1..36 |-> LayN(n)], ValidLay)
+               /\ y.out = "samebase" => y.cwd # "same"           \* that spelling is the "input" class
+               /\ y.out = "input" => y.cfg # "discover"          \* the same string for --config and --outfile
+LaySeq == SelectSeq([n \in 1..45 |-> LayN(n)], ValidLay)
 Layouts == {LaySeq[i] : i \in 1..Len(LaySeq)}
 \* deterministic spread of the layouts over the cases of the other families
 \* a stale output named like the input in the working directory would itself be found by the search
-StaleOK(y) == ~(y.cfg = "discover" /\ y.out = "samebase")
+StaleOK(y) == ~(y.cfg = "discover" /\ y.out = "samebase") /\ y.out # "input"
 LayRot(n) == LET y == LaySeq[(n % Len(LaySeq)) + 1] IN [y EXCEPT !.stale = StaleOK(y) /\ ((n \div Len(LaySeq)) % 2 = 1)]
 
 VARIABLES fam,        \* case family
@@ -170,11 +181,18 @@ InitSingle == /\ "single" \in Families /\ fam = "single" /\ shape = "full" /\ ba
               /\ vi \in {1, 2}
               /\ \E k \in Keys, L \in AllLevels : sets = Only(L, {k}) /\ lay = LayRot(Kn(k) * 7 + Idx(L) * 9 + vi)
 \* every string-valued mapped setting in every style a normaliser would alter
+TypedScalarKeys == StyleKeys \cup (BoolKeys \cap (Mapped \cup {"with-expecter"}))
 InitStyle ==  /\ "style" \in Families /\ fam = "style" /\ shape = "full" /\ bad = "none" /\ nm = NoName
-              /\ vi \in Styles \ {1, 2}
-              /\ \/ \E k \in StyleKeys, L \in StyleLevels : sets = Only(L, {k}) /\ lay = LayRot(Kn(k) * 11 + Idx(L) * 9 + vi + 5)
+              /\ vi \in (Styles \ {1, 2}) \cup {11}
+              /\ \/ \E k \in (IF vi = 11 THEN TypedScalarKeys ELSE StyleKeys), L \in StyleLevels : sets = Only(L, {k}) /\ lay = LayRot(Kn(k) * 11 + Idx(L) * 9 + vi + 5)
                  \/ sets = [M \in AllLevels |-> StyleKeys] /\ lay = LayRot(vi)
                  \/ sets = [M \in AllLevels |-> StrKeys \cup ListKeys] /\ lay = LayRot(vi + 11)
+\* equal and nested maps across levels, written with anchors / aliases / merge keys (style 10)
+InitAlias ==  /\ "alias" \in Families /\ fam = "alias" /\ shape = "full" /\ bad = "none" /\ nm = NoName /\ vi = 10
+              /\ \/ \E k1 \in AliasKeys, k2 \in Mapped \cup {"with-expecter", "filename"} : k1 # k2 /\ lay = LayRot(Kn(k1) * 3 + Kn(k2)) /\
+                      sets = [M \in AllLevels |-> CASE M \in {"top", "ifaceI", "e2", "pkgB"} -> {k1, k2} [] M = "ifaceJ" -> {k2} [] OTHER -> {k1}]
+                 \/ sets = [M \in AllLevels |-> Mapped \cup {"with-expecter"}] /\ lay = LayRot(8)
+                 \/ sets = [M \in AllLevels |-> IF Odd(M) THEN Mapped ELSE Mapped \ {"_anchors", "exclude", "all"}] /\ lay = LayRot(21)
 InitNull ==   /\ "null" \in Families /\ fam = "null" /\ shape = "full" /\ bad = "none" /\ nm = NoName
               /\ \E k \in Mapped \cup {"with-expecter", "filename"}, L \in AllLevels : sets = Only(L, {k}) /\ lay = LayRot(Kn(k) * 3 + Idx(L) + 2)
               /\ vi = 0
@@ -201,7 +219,8 @@ InitNames ==  /\ "names" \in Families /\ fam = "names" /\ shape = "full" /\ bad 
               /\ sets = [M \in AllLevels |-> {"all", "mockname", "unroll-variadic", "quiet"} \ {"recursive"}]
               /\ vi = 1
 InitBad ==    /\ "bad" \in Families /\ fam = "bad" /\ shape = "full" /\ nm = NoName
-              /\ bad \in {"unknown-key-top", "unknown-key-pkg", "unknown-key-entry", "wrong-type", "not-yaml", "v3-file", "list-top"}
+              /\ bad \in {"unknown-key-top", "unknown-key-pkg", "unknown-key-entry", "wrong-type", "not-yaml", "v3-file", "list-top",
+                         "dup-key", "absent-input", "input-is-dir"}
               /\ sets = [M \in AllLevels |-> {"all", "dir"}]
               /\ vi = 1
               /\ \E n \in {0, 7, 13, 22} : lay = LayRot(n)
@@ -210,7 +229,7 @@ InitRandom == /\ "random" \in Families /\ fam = "random" /\ shape \in {"full", "
               /\ nm = NoName /\ sets = NoKeys /\ vi = 1 /\ lay = LayRot(0) /\ wrote = "-"
               /\ pc = "choose" /\ todo = << >> /\ out = << >> /\ res = "run"
 
-Init == InitRandom \/ (Base /\ (InitSingle \/ InitStyle \/ InitNull \/ InitPair \/ InitLevels \/ InitShape \/ InitLayout \/ InitNames \/ InitBad))
+Init == InitRandom \/ (Base /\ (InitSingle \/ InitStyle \/ InitAlias \/ InitNull \/ InitPair \/ InitLevels \/ InitShape \/ InitLayout \/ InitNames \/ InitBad))
 
 (* ------------------------------------------------------------ migrate.go *)
 \* migrateConfig, migrate.go:278-410, line by line: where each v2 field goes.  "-" = not carried over.
@@ -243,7 +262,7 @@ Put(L, m) == [x \in DOMAIN out \cup {L} |-> IF x = L THEN m ELSE out[x]]
 Choose ==
   /\ pc = "choose"
   /\ sets' = [M \in AllLevels |-> IF M \in Configurable(shape) THEN RandomSubset(RandomElement(0..SimMax), Keys) ELSE {}]
-  /\ vi' = RandomElement(Styles)
+  /\ vi' = RandomElement(Styles \cup {10, 11})
   /\ lay' = LayRot(RandomElement(0..(2 * Len(LaySeq) - 1)))
   /\ pc' = "decode"
   /\ UNCHANGED <<fam, shape, nm, bad, wrote, todo, out, res>>
@@ -277,6 +296,7 @@ ImplOutLoc ==
     [] lay.out = "rel"      -> "cwd:out/v3.yml"
     [] lay.out = "samebase" -> "cwd:<input base name>"
     [] lay.out = "abs"      -> "abs:abs-out.yml"
+    [] lay.out = "input"    -> "input"       \* known deviation C19-outfile-is-input: O_TRUNC on the v2 file itself
 Encode ==
   /\ pc = "levels" /\ todo = << >>
   /\ pc' = "done" /\ res' = "ok"
@@ -288,9 +308,9 @@ Spec == Init /\ [][Next]_vars
 
 -----------------------------------------------------------------------------
 (* Impl => Contract *)
-ImplConforms == pc = "done" /\ bad = "none" => res = "ok" /\ TreeOK(V2, out) /\ wrote = OutLocId(lay)
+ImplConforms == pc = "done" /\ bad = "none" => res = "ok" /\ TreeOK(V2, out) /\ (lay.out # "input" => wrote = OutLocId(lay))
 
-TypeOK == /\ shape \in Shapes /\ vi \in 0..9 /\ pc \in {"choose", "decode", "top", "levels", "done"}
+TypeOK == /\ shape \in Shapes /\ vi \in AllStyles /\ pc \in {"choose", "decode", "top", "levels", "done"}
           /\ \A L \in AllLevels : sets[L] \subseteq Keys
 
 \* vacuity witnesses (must be violated)
